@@ -71,5 +71,10 @@ func Replay(path string) int {
 		fmt.Println("HARNESS-ERROR " + err.Error())
 		return 2
 	}
-	return Run(r.Property, r.Tier, r.Seed)
+	os.Setenv("VERIF_REPLAY_FILE", path)
+	code := Run(r.Property, r.Tier, r.Seed)
+	if code == 0 {
+		fmt.Printf("replay: the recorded case of %s is no longer rejected\n", path)
+	}
+	return code
 }
